@@ -318,8 +318,11 @@ def parse_operand(t):
         return Operand("move", parse_place(t[5:]))
     if t.startswith("const "):
         return Operand("const", const=parse_const(t[6:]))
-    if re.match(r"^[_(]", t):
+    if re.match(r"^(_\d|\()", t):
         return Operand("copy", parse_place(t))
+    # a bare path: function item / unit struct used as a value (zero-sized constant)
+    if re.match(r"^[<\w]", t):
+        return Operand("const", const=parse_const(t))
     raise MirUnsupported("operand: " + t)
 
 
@@ -333,6 +336,8 @@ def parse_rvalue(t):
     t = t.strip()
     if t.startswith("no_retag "):
         t = t[len("no_retag "):]
+    if t.startswith("&/*tls*/ "):
+        return Rvalue("tls_ref", t[len("&/*tls*/ "):].strip())
     if t.startswith("&raw const ") or t.startswith("&raw mut "):
         return Rvalue("ref", parse_place(t.split(" ", 2)[2]), "raw")
     if t.startswith("&mut "):
@@ -423,7 +428,7 @@ def parse_rvalue(t):
         path = t[:i].strip()
         ops = split_top(t[i + 1:-1])
         return Rvalue("adt", path, [(str(k), parse_operand(o)) for k, o in enumerate(ops)])
-    if re.match(r"^[\w:<>,&' \[\];*+=\-!()]+$", t):
+    if re.match(r"^[\w:<>,&' \[\];*+=\-!(){}#@./]+$", t) and not t.startswith("{"):
         return Rvalue("adt", t, [])
     raise MirUnsupported("rvalue: " + t)
 
